@@ -1680,8 +1680,8 @@ impl Scenario for C16 {
 
     fn units(tier: Tier) -> u64 {
         match tier {
-            Tier::Quick => 6_000,
-            Tier::Thorough => 120_000,
+            Tier::Quick => 10_000,
+            Tier::Thorough => 150_000,
         }
     }
     fn unit(seed: u64, tier: Tier, unit: u64, sink: &mut dyn FnMut(Plan) -> bool) {
